@@ -147,6 +147,9 @@ func llvmEnv() {
 	}
 }
 
+// report of tools/c2go.py for this run (which C functions were translated, which are opaque and why)
+var cExtraction map[string]any
+
 func cmdCheck(args []string) int {
 	fs := flag.NewFlagSet("check", flag.ExitOnError)
 	tier := fs.String("tier", "quick", "quick|thorough")
@@ -202,6 +205,9 @@ func cmdCheck(args []string) int {
 			fmt.Fprint(os.Stderr, string(out))
 		}
 		extras = append(extras, extraPkg{Dir: xdir, Contracts: filepath.Join(repoDir, "lib", "runtime", "contracts_verif.h")})
+		if data, err := os.ReadFile(filepath.Join(xdir, "extraction.json")); err == nil {
+			json.Unmarshal(data, &cExtraction)
+		}
 	}
 	v, err := LoadVerifier(repoDir, patterns, filepath.Join(verifDir, "contracts", "trusted"), extras...)
 	if err != nil {
@@ -569,6 +575,9 @@ func cmdCheck(args []string) int {
 				}
 			}
 		}
+		if cExtraction != nil {
+			trusted["clang-14 -O0 LLVM IR as the meaning of the C sources; tools/c2go.py (instruction-by-instruction rewriting into Go, DESIGN 3b)"] = true
+		}
 		trusted["go/types + x/tools go/ssa (NaiveForm) as the semantics of the Go source"] = true
 		trusted["SMT solvers z3 4.8.12, z3 5.1.0, cvc5 1.0.3 (first definitive answer wins)"] = true
 		trusted["engine's semantics of the SSA instruction subset (DESIGN.md appendix A)"] = true
@@ -594,6 +603,7 @@ func cmdCheck(args []string) int {
 				"known_findings":           knownLines,
 				"unsupported_functions":    unsupported,
 				"phase_s":                  map[string]float64{"load": round3(loadS), "generate": round3(genS), "solve": round3(solveS)},
+				"c_extraction":             cExtraction,
 			},
 			"assumptions": keys(assum),
 		}
